@@ -572,13 +572,52 @@ def b62_roundtrip_failures(maxlen, rng):
     return bad, n
 
 
+def ueb_framing_failures(rng):
+    """native run-time contract on uri.unpack_extension: a block whose framing was damaged (separator byte replaced, length
+    field changed by a digit) is rejected or still yields the ORIGINAL dictionary -- never a different one"""
+    from allmydata import uri
+    bad, n = [], 0
+    for trial in range(12):
+        d0 = {"size": rng.randrange(1, 10 ** 6), "segment_size": rng.randrange(1, 10 ** 5), "num_segments": rng.randrange(1, 50), "needed_shares": 3, "total_shares": 10,
+              "codec_name": b"crs", "crypttext_root_hash": bytes(rng.randrange(256) for _ in range(32)), "share_root_hash": bytes(rng.randrange(256) for _ in range(32)),
+              "tail_codec_params": b"1-2-3", "codec_params": b"4-5-6"}
+        packed = uri.pack_extension(d0)
+        want = uri.unpack_extension(packed)
+        # positions of the framing bytes, recomputed by walking the encoding
+        pos, frames = 0, []
+        while pos < len(packed):
+            c1 = packed.index(b":", pos)
+            c2 = packed.index(b":", c1 + 1)
+            length = int(packed[c1 + 1:c2])
+            sep = c2 + 1 + length
+            frames.append((c1, c2, sep))
+            pos = sep + 1
+        for (c1, c2, sep) in frames:
+            mutants = [packed[:sep] + repl + packed[sep + 1:] for repl in (b";", b":", b"x", b"")]
+            digits = packed[c1 + 1:c2]
+            for delta in (-1, 1, 10):
+                v = int(digits) + delta
+                if v >= 0:
+                    mutants.append(packed[:c1 + 1] + b"%d" % v + packed[c2:])
+            for m in mutants:
+                n += 1
+                try:
+                    got = uri.unpack_extension(m)
+                except Exception:       # noqa
+                    continue
+                if got != want:
+                    bad.append({"mutated_at": int(sep), "accepted_keys": sorted(got)[:12], "original_keys": sorted(want)[:12], "mutant_len": len(m), "original_len": len(packed)})
+    return bad, n
+
+
 def extra_checks(rep, tier):
     import random
     rng = random.Random(rep.seed * 31 + 7)
     m32, m62 = (64, 40) if tier == "quick" else (600, 300)
     checks = [("Base32Table:could_be_base32_encoded-equals-its-specification-on-all-8x256-classes", "P", lambda: (b32_table_failures(), 2048)),
               ("Base32:b2a-a2b-round-trip-and-refusal-of-malformed-strings", "B", lambda: b32_roundtrip_failures(m32, rng)),
-              ("Base62:b2a-a2b-round-trip", "B", lambda: b62_roundtrip_failures(m62, rng))]
+              ("Base62:b2a-a2b-round-trip", "B", lambda: b62_roundtrip_failures(m62, rng)),
+              ("UEBFraming:a-block-with-damaged-framing-is-rejected-or-reads-as-the-original-never-as-another-dictionary", "B", lambda: ueb_framing_failures(rng))]
     for name, lvl, fn in checks:
         bad, n = fn()
         rep.obligations += 1
@@ -597,4 +636,8 @@ def extra_checks(rep, tier):
 
 
 def contracts(tier):
-    return [LeaseImmutableRT(), LeaseMutableRT(), LeaseImmutableDecEnc(), LeaseMutableDecEnc(), ImmutableHeaderRT(), MutableHeaderRT(), NetstringRT(), NetstringStrict(), UEBRoundTrip()]
+    # a lease record must still decode to the values it was given after it has been renewed in place (hashed v2 records included):
+    # the renewal contracts of C25 are re-run here
+    from contracts.C25 import RenewLease, AddOrRenewLease
+    return [LeaseImmutableRT(), LeaseMutableRT(), LeaseImmutableDecEnc(), LeaseMutableDecEnc(), ImmutableHeaderRT(), MutableHeaderRT(), NetstringRT(), NetstringStrict(), UEBRoundTrip(),
+            RenewLease(), AddOrRenewLease()]
